@@ -32,6 +32,73 @@ fn describe(ops: &Vec<Op>) -> Value {
     }).collect::<Vec<_>>()})
 }
 
+/// Histories with big images: intermediate images of several MB and retained scratch buffers beyond 64 MB, so that anything
+/// decided from the *size* of what a Resizer kept (reuse, pass order, a memory budget) shows against a fresh Resizer.
+fn big_history(rng: &mut Rng, small: &GenOpts) -> Vec<Op> {
+    let len = rng.range(7, 11) as usize;
+    let mut ops = Vec::new();
+    let mut ext = *rng.pick(&ALL_EXT);
+    let u8s = [fr::PixelType::U8, fr::PixelType::U8x2, fr::PixelType::U8x3, fr::PixelType::U8x4];
+    let mut huge_used = false;
+    for k in 0..len {
+        let mut c = random_case(rng, small);
+        let kind = if k == 1 && !huge_used { 3 } else { rng.below(7) };
+        match kind {
+            1 => {
+                // wide source, tall destination: the vertical-first intermediate is sw x dh
+                c.pt = *rng.pick(&u8s);
+                (c.sw, c.sh, c.dw, c.dh) = (rng.range(1500, 2600) as u32, rng.range(20, 60) as u32, rng.range(60, 140) as u32, rng.range(1500, 2600) as u32);
+                c.alg = Alg::Conv(*rng.pick(&[Filt::Bilinear, Filt::Box, Filt::CatmullRom]));
+                c.crop = Crop::None;
+            }
+            2 => {
+                c.pt = *rng.pick(&[fr::PixelType::U8x4, fr::PixelType::U16x2, fr::PixelType::F32, fr::PixelType::U8]);
+                (c.sw, c.sh, c.dw, c.dh) = (rng.range(20, 60) as u32, rng.range(1500, 2600) as u32, rng.range(1500, 2600) as u32, rng.range(60, 140) as u32);
+                c.alg = Alg::Conv(*rng.pick(&[Filt::Bilinear, Filt::Hamming]));
+                c.crop = Crop::None;
+            }
+            3 if !huge_used => {
+                // an alpha-aware resize of a source of 66..72 MB (the whole source is premultiplied into the kept buffer, whatever the crop)
+                huge_used = true;
+                if rng.chance(1, 2) {
+                    c.pt = fr::PixelType::U8x4;
+                    (c.sw, c.sh) = (4200 + rng.below(64) as u32, 4000 + rng.below(200) as u32);
+                } else {
+                    c.pt = fr::PixelType::U16x4;
+                    (c.sw, c.sh) = (3000 + rng.below(64) as u32, 2800 + rng.below(150) as u32);
+                }
+                c.crop = Crop::Box([rng.below(100) as f64, rng.below(100) as f64, 64.0 + rng.unit() * 30.0, 48.0 + rng.unit() * 30.0]);
+                (c.dw, c.dh) = (rng.range(8, 24) as u32, rng.range(8, 24) as u32);
+                c.alg = Alg::Conv(Filt::Bilinear);
+                c.use_alpha = true;
+                c.content = Content { kind: 4, seed: rng.next(), a: 0.0, b: 200.0 };
+            }
+            4 | 5 => {
+                // SuperSampling of a few hundred pixels per side (two-step: nearest pre-shrink, then convolution)
+                (c.sw, c.sh, c.dw, c.dh) = (rng.range(200, 500) as u32, rng.range(200, 500) as u32, rng.range(10, 60) as u32, rng.range(10, 60) as u32);
+                c.alg = Alg::Super(*rng.pick(&[Filt::Box, Filt::Bilinear, Filt::Lanczos3]), rng.range(1, 3) as u8);
+                c.crop = if rng.chance(1, 2) { Crop::None } else { Crop::Fit(0.5, 0.5) };
+            }
+            _ => {}
+        }
+        if kind != 3 {
+            c.content = gen_content(rng, pt_kind(c.pt));
+        }
+        c.alpha = if pt_has_alpha(c.pt) { Some(gen_alpha_pat(rng)) } else { None };
+        if rng.chance(1, 5) {
+            ext = *rng.pick(&ALL_EXT);
+        }
+        ops.push(Op::Resize(c, ext));
+        match rng.below(12) {
+            0 => ops.push(Op::Reset),
+            1 => ops.push(Op::Clone),
+            2 => ops.push(Op::Switch),
+            _ => {}
+        }
+    }
+    ops
+}
+
 pub fn run(ctx: &mut Ctx) {
     let mut o = GenOpts::conv_all(&ALL_PT);
     o.alpha_mode = 2;
@@ -41,10 +108,14 @@ pub fn run(ctx: &mut Ctx) {
     let total = ctx.n;
     let seed = ctx.seed;
     let miri = ctx.is_miri;
+    let big = ctx.sub == "big";
     ctx.drive(
         total,
         |_, idx| {
             let mut rng = Rng::for_case(seed, "C09", idx);
+            if big {
+                return Some(big_history(&mut rng, &o));
+            }
             let len = if miri { rng.range(4, 7) } else { rng.range(40, 200) } as usize;
             let mut ops = Vec::with_capacity(len);
             let mut cur_ext = *rng.pick(&ALL_EXT);
@@ -186,6 +257,7 @@ fn one_call<P: Px>(r: &mut Resizer, c: &RCase, ext: Ext, failing: bool, k: usize
     let fresh = resize_vec::<P>(&src, c.sw, c.sh, c.dw, c.dh, &opts, ext);
     stats.count("calls_compared", 1);
     stats.seen("pixel_sizes", std::mem::size_of::<P>());
+    stats.max("internal_buffers_bytes_max", r.size_of_internal_buffers() as f64);
     if let Some(h) = hook_violation(&events) {
         viols.push(Viol::new("hook_violation", format!("call {}: {}", k, h)));
     }
